@@ -98,7 +98,82 @@ func pMul(a, b Poly) Poly {
 			}
 		}
 	}
-	return out
+	return canonDivProducts(out)
+}
+
+// divParts remembers dividend and divisor of every Div atom that was built, so that the exact
+// integer identity  b*(a/b) == a - a%b  (Go: truncated division, any signs, b != 0) can be applied:
+// products of a quotient with its own divisor are rewritten to the remainder form. "Round up by
+// comparing c*(n/c) with n" and "round up when n%c != 0" then have the same normal form.
+var divParts = map[string][2]Poly{}
+
+func mkDiv(a, b Poly) Poly {
+	name := "Div(" + a.String() + "," + b.String() + ")"
+	divParts[name] = [2]Poly{a, b}
+	return pAtom(name)
+}
+
+func canonDivProducts(p Poly) Poly {
+	for m, coef := range p {
+		fs := splitMono(m)
+		for i, f := range fs {
+			parts, ok := divParts[f]
+			if !ok {
+				continue
+			}
+			a, b := parts[0], parts[1]
+			rest := append(append([]string{}, fs[:i]...), fs[i+1:]...)
+			var restMono string
+			var q int64
+			if kb, isK := b.IsConst(); isK {
+				if kb == 0 || coef%kb != 0 {
+					continue
+				}
+				q = coef / kb
+				restMono = strings.Join(rest, "*")
+			} else if len(b) == 1 {
+				// divisor is a single atom with coefficient 1 that also occurs as a factor
+				var atom string
+				for k, v := range b {
+					if v == 1 && len(splitMono(k)) == 1 {
+						atom = k
+					}
+				}
+				if atom == "" {
+					continue
+				}
+				j := -1
+				for k, r := range rest {
+					if r == atom {
+						j = k
+						break
+					}
+				}
+				if j < 0 {
+					continue
+				}
+				rest = append(append([]string{}, rest[:j]...), rest[j+1:]...)
+				restMono = strings.Join(rest, "*")
+				q = coef
+			} else {
+				continue
+			}
+			// coef*m  ->  q*rest*(a - Mod(a,b))
+			out := Poly{}
+			for k, v := range p {
+				if k != m {
+					out[k] = v
+				}
+			}
+			repl := pAdd(a, pAtom("Mod("+a.String()+","+b.String()+")"), -1)
+			scaled := Poly{}
+			for k, v := range repl {
+				scaled[monoMul(k, restMono)] += v * q
+			}
+			return canonDivProducts(pAdd(out, scaled, 1))
+		}
+	}
+	return p
 }
 
 func pScale(a Poly, k int64) Poly { return pMul(a, pConst(k)) }
@@ -484,7 +559,7 @@ func (n *Normer) normBinOp(x *ssa.BinOp) Poly {
 		if oka && okb && kb != 0 {
 			return pConst(ka / kb)
 		}
-		return pAtom("Div(" + a.String() + "," + b.String() + ")")
+		return mkDiv(a, b)
 	case token.REM:
 		ka, oka := a.IsConst()
 		kb, okb := b.IsConst()
@@ -503,7 +578,7 @@ func (n *Normer) normBinOp(x *ssa.BinOp) Poly {
 			if ka, oka := a.IsConst(); oka {
 				return pConst(ka >> uint(k))
 			}
-			return pAtom("Div(" + a.String() + "," + pConst(1<<uint(k)).String() + ")")
+			return mkDiv(a, pConst(1<<uint(k)))
 		}
 		return pAtom("Shr(" + a.String() + "," + b.String() + ")")
 	case token.AND, token.OR, token.XOR, token.AND_NOT:
@@ -693,6 +768,9 @@ func (n *Normer) normCall(x *ssa.Call) Poly {
 			args = append(args, n.Norm(a).asAtom())
 		}
 		if b.Name() == "len" && len(args) == 1 {
+			if mk, ok := cc.Args[0].(*ssa.MakeSlice); ok {
+				return n.Norm(mk.Len) // also when the slice has a role name
+			}
 			if lv, ok := n.sliceLen[args[0]]; ok {
 				return n.Norm(lv)
 			}
@@ -891,7 +969,7 @@ func refPoly(e ast.Expr) (Poly, error) {
 			if oka && okb && kb != 0 {
 				return pConst(ka / kb), nil
 			}
-			return pAtom("Div(" + a.String() + "," + b.String() + ")"), nil
+			return mkDiv(a, b), nil
 		case token.REM:
 			return pAtom("Mod(" + a.String() + "," + b.String() + ")"), nil
 		case token.SHL:
@@ -963,9 +1041,6 @@ func (p *Prog) callSitesOf(fn *ssa.Function) []ssa.CallInstruction {
 // resolveParam: the value of parameter idx of helper fn, if every call site passes the same
 // (normal form of the) argument. Exported functions are not resolved (unknown callers).
 func (n *Normer) resolveParam(fn *ssa.Function, idx int) (Poly, bool) {
-	if fn.Parent() != nil {
-		return nil, false
-	}
 	p := fn.Params[idx]
 	if n.resolving == nil {
 		n.resolving = map[*ssa.Parameter]bool{}
@@ -988,6 +1063,9 @@ func (n *Normer) resolveParam(fn *ssa.Function, idx int) (Poly, bool) {
 			n.Ctx = saved
 			return v, true
 		}
+	}
+	if fn.Parent() != nil {
+		return nil, false // closures are resolved through an explicit calling context only
 	}
 	if fn.Object() != nil && fn.Object().Exported() {
 		return nil, false // unknown callers outside the repository
@@ -1123,7 +1201,7 @@ func (n *Normer) paramArg(p *ssa.Parameter) (ssa.Value, []ssa.CallInstruction, b
 			idx = i
 		}
 	}
-	if idx < 0 || fn.Parent() != nil {
+	if idx < 0 {
 		return nil, nil, false
 	}
 	for k := len(n.Ctx) - 1; k >= 0; k-- {
@@ -1135,7 +1213,7 @@ func (n *Normer) paramArg(p *ssa.Parameter) (ssa.Value, []ssa.CallInstruction, b
 			return args[idx], n.Ctx[:k], true
 		}
 	}
-	if n.Root == fn || (fn.Object() != nil && fn.Object().Exported()) {
+	if n.Root == fn || fn.Parent() != nil || (fn.Object() != nil && fn.Object().Exported()) {
 		return nil, nil, false
 	}
 	sites := n.P.callSitesOf(fn)
